@@ -39,7 +39,7 @@ def run(ctx):
     ctx.step(c19.orders, ctx, "C07.tripline")
     ctx.step(c12.publish, ctx, "C07.publish", False)
     ctx.step(c05.register, ctx, "C07.publish-log", False, True)
-    ctx.step(common.rcu_writer_guard, ctx, "C07.rcu-writers")
+    ctx.step(common.rcu_writer_guard, ctx, "C07.rcu-writers", loads=False)
     if ctx.tier == "thorough":
         from ..ircheck import cross_check
         ctx.step(cross_check, ctx, "C07.ir", REPO, (0, 1, 2, 3))
